@@ -283,10 +283,19 @@ def check_lookaside(ctx, model):
            "one key definition reaches lookup and store")
     # __init__ creates a fresh cache per instance
     init = cm.members.get("__init__")
-    ok = init is not None and any(
-        isinstance(a, ast.Assign) or isinstance(a, ast.AnnAssign)
-        for a in ast.walk(init.node)) and "self._cache" in ast.unparse(init.node) \
-        and "{}" in ast.unparse(init.node)
+    ok = False
+    if init is not None and init.kind == "func":
+        ok = True
+        n_paths = 0
+        for ps in summarize(init.node, node_param=False):
+            if ps.term == "raise":
+                continue
+            n_paths += 1
+            ws = [e.value for e in ps.events if e.kind == "attrwrite"
+                  and e.arg == ("selfobj",) and e.name == "_cache"]
+            # the last store on the path is a new, empty mapping
+            ok = ok and bool(ws) and ws[-1] == ("litdict", (), ())
+        ok = ok and n_paths >= 1
     ctx.ob("P/CachedMapper.__init__/fresh-cache", ok, cm.loc(),
            "each instance starts with an empty cache" if ok else
            "CachedMapper.__init__ does not create a fresh per-instance cache")
